@@ -2,6 +2,8 @@
 // carry their lexical class; the declaration modifier sits exactly on the declaring name token
 use vstd::prelude::*;
 use std::ops::Range;
+use std::collections::HashMap;
+use std::fmt::Debug;
 verus! {
 //@include shims.rs
 //@include types_error.rs
@@ -155,32 +157,7 @@ pub open spec fn name_token(name: Identifier, offset: usize, ts: Seq<Token>) -> 
 //@end
 
 // ---------- identifiers inside a procedure: kind by the entity the symbol table binds the name to
-// R7 stand-ins: the symbol table is HashMap based; only `lookup` is used
-pub struct LookupTable<'a> { pub opaque: &'a u8 }
-pub struct LocalTable { pub opaque: u8 }
-//@extract spl_frontend/src/table.rs :: enum DataType
-//@ rewrite drop_derive
-//@end
-//@extract spl_frontend/src/table.rs :: struct TypeEntry
-//@ rewrite drop_derive
-//@end
-//@extract spl_frontend/src/table.rs :: struct ProcedureEntry
-//@ rewrite drop_derive
-//@end
-//@extract spl_frontend/src/table.rs :: struct VariableEntry
-//@ rewrite drop_derive
-//@end
-//@extract spl_frontend/src/table.rs :: enum Entry
-//@ rewrite drop_derive
-//@end
-pub uninterp spec fn lookup_spec<'a>(table: LookupTable<'a>, key: Seq<char>) -> Option<Entry<'a>>;
-//~assume LookupTable::lookup (HashMap, closures) is abstract: it returns `lookup_spec(table, key)`; that the table handed to collect_proc_dec is the one of the enclosing procedure is not decided
-//@extract spl_frontend/src/table.rs :: impl<'a> LookupTable<'a> :: fn lookup
-//@ ret r
-//@ sig
-        ensures r == lookup_spec(*self, key@),
-//@ assume_body fn lookup
-//@end
+//@include inc_symtab.rs
 //~assume Vec<Range<usize>>::contains (slice::contains, PartialEq for Range) holds iff some element has the same start and end
 #[verifier::external_body]
 pub fn ranges_contain(v: &Vec<Range<usize>>, r: &Range<usize>) -> (b: bool)
